@@ -135,11 +135,13 @@ def is_repo_function(f):
 
 # ------------------------------------------------------------------ scopes / closures
 class Scope:
-    __slots__ = ("vars", "parent", "fn_globals", "cells", "klass", "self0")
+    __slots__ = ("vars", "parent", "fn_globals", "cells", "klass", "self0", "fn_qual", "fn_node")
 
     def __init__(self, parent=None, fn_globals=None, cells=None):
         self.vars = {}
         self.parent = parent
+        self.fn_qual = parent.fn_qual if parent is not None else None
+        self.fn_node = parent.fn_node if parent is not None else None
         self.fn_globals = fn_globals if fn_globals is not None else (parent.fn_globals if parent else {})
         self.cells = cells or {}
         self.klass = None
@@ -366,6 +368,9 @@ class Interp:
         self.notes = {}
         self.exc_stack = []
         self.trace_calls = None             # optional list collecting interpreted qualnames
+        self.loop_contracts = {}            # (function qualname, loop ordinal) -> handler(it, stmt, scope)
+        self.comp_contracts = {}            # (function qualname, comprehension ordinal) -> handler(it, expr, scope)
+        self.pow_uf = False
 
     # ---------------------------------------------------------------- solver / forking
     def solver(self):
@@ -522,6 +527,13 @@ class Interp:
     def native(self, fn, args, kwargs):
         if _is_logger_call(fn):
             return None
+        if getattr(getattr(fn, "__self__", None), "_pyvc_ghost", False) or getattr(fn, "_pyvc_ghost", False):
+            try:
+                return fn(*args, **kwargs)       # ghost object supplied by a contract: takes symbolic values
+            except Internal:
+                raise
+            except Exception as e:
+                raise PyExc(e)
         for a in list(args) + list(kwargs.values()):
             if has_sym(a, 3) or isinstance(a, (IFunc, IGen)):
                 raise Unsupported(f"native call {getattr(fn, '__qualname__', fn)!r} with symbolic/interpreted argument {type(a).__name__}")
@@ -569,6 +581,8 @@ class Interp:
             sc.self0 = args[0]
         elif bound:
             sc.self0 = next(iter(bound.values()))
+        sc.fn_qual = f"{fn.__module__}.{fn.__qualname__}"
+        sc.fn_node = node
         return self.run_body(node, sc, fn.__qualname__)
 
     def call_ifunc(self, f, args, kwargs):
@@ -1526,6 +1540,31 @@ class Interp:
 
 
 _NODEFAULT = object()
+
+
+_ORD_CACHE = {}
+
+
+def node_ordinal(fn_node, node, kinds):
+    """ordinal (source order, nested defs excluded) of ``node`` among the nodes of the given kinds in fn_node"""
+    key = (id(fn_node), kinds)
+    if key not in _ORD_CACHE:
+        out = []
+
+        def walk(n):
+            for c in ast.iter_child_nodes(n):
+                if isinstance(c, (ast.FunctionDef, ast.Lambda, ast.ClassDef, ast.AsyncFunctionDef)):
+                    continue
+                if isinstance(c, kinds):
+                    out.append(c)
+                walk(c)
+        walk(fn_node)
+        _ORD_CACHE[key] = (out, fn_node)
+    lst = _ORD_CACHE[key][0]
+    for i, n in enumerate(lst):
+        if n is node:
+            return i
+    return None
 
 
 # ------------------------------------------------------------------ exploration driver
